@@ -31,9 +31,11 @@ def variants(proto, thorough):
         for twin in ["dense", "sparse", "s2d"]:
             if not thorough and proto == "A" and c != VECTORS[0]:
                 continue
-            v.append((c, twin))
-    v.append(([1200, 1300, 1400], "s2dlive"))
-    v.append(([1100, 1101, 9000], "s2dlive"))
+            v.append((c, twin, 0))
+    v.append(([1200, 1300, 1400], "s2dlive", 1100))      # the first new element switches sparse -> dense
+    # 9608 >> 3 = 1201: the array stays sparse while two elements are added and switches to dense at the third, so
+    # elements defined while sparse (possibly non-configurable) are carried through sparseArrayObject.expand
+    v.append(([1200, 1201, 9608], "s2dlive", 1200))
     return v
 
 
@@ -49,13 +51,13 @@ def run_objarray(chk, wd, binp, thorough):
         chk.add("states", st["states"])
         chk.add("transitions", st["transitions"])
         jobs = []
-        for n, (c, twin) in enumerate(variants(proto, thorough)):
+        for n, (c, twin, base) in enumerate(variants(proto, thorough)):
             pre = os.path.join(gwd, "prelude-%d.js" % n)
-            open(pre, "w").write("var CFG = %s;\n" % json.dumps({"c": c, "twin": twin, "proto": proto}))
-            share = None if thorough else (seed() + n, 16)
+            open(pre, "w").write("var CFG = %s;\n" % json.dumps({"c": c, "twin": twin, "proto": proto, "base": base}))
+            share = None if thorough else (seed() + n, 4 if twin == "s2dlive" else 16)
             jobs.append(dict(what="ObjArray proto=%s c=%s twin=%s" % (proto, c, twin), tag="a%d" % n, share=share,
                              args=["-adaptor", pre + "," + os.path.join(HARNESS, "adaptors", "objarray.js")],
-                             meta={"module": "ObjArray", "proto": proto, "c": c, "twin": twin}))
+                             meta={"module": "ObjArray", "proto": proto, "c": c, "twin": twin, "base": base}))
         with phase(chk, "replay-objarray-" + proto):
             results = rp.run_jobs(binp, g, gwd, jobs, walks=200 if thorough else 10, walklen=60, timeout=2400)
         for job, (reps, crashes) in zip(jobs, results):
@@ -91,7 +93,7 @@ def replay(path):
     binp = os.path.join(wd, "jsreplay")
     go_build("jsreplay", binp)
     pre = os.path.join(wd, "prelude.js")
-    open(pre, "w").write("var CFG = %s;\n" % json.dumps({"c": m["c"], "twin": m["twin"], "proto": m["proto"]}))
+    open(pre, "w").write("var CFG = %s;\n" % json.dumps({"c": m["c"], "twin": m["twin"], "proto": m["proto"], "base": m.get("base", 0)}))
     r = subprocess.run([binp, "-replay", path, "-adaptor", pre + "," + os.path.join(HARNESS, "adaptors", "objarray.js")],
                        stdout=subprocess.PIPE, text=True)
     got = json.loads(r.stdout)
